@@ -586,7 +586,7 @@ def assemble(unit, ex, extra_spec=""):
     parts = []
     parts.append("// GENERATED on every run by /verif/run/engine.py — do not edit.\n"
                  "// Function bodies below are extracted mechanically from /repo (tools/vx); ghost text sits between //@@ sentinels.\n"
-                 "#![allow(unused_imports, unused_variables, dead_code, unused_mut, unused_parens, non_snake_case, unreachable_code, unreachable_patterns)]\n"
+                 "#![allow(unused_imports, unused_variables, dead_code, unused_mut, unused_parens, non_snake_case, unreachable_code, unreachable_patterns, private_interfaces)]\n"
                  "use vstd::prelude::*;\n")
     parts.append("verus! {\n")
     for fn in unit.get("prelude", ["prelude.rs"]):
